@@ -41,6 +41,8 @@ void* w_List_remove(void* l, void* item)
   return ((L*)l)->remove(it).item;
 }
 void w_List_swap(void* a, void* b) { ((L*)a)->swap(*(L*)b); }
+void* w_List_removeFront(void* l) { return ((L*)l)->removeFront().item; } // passes the list's own _begin iterator
+void* w_List_removeBack(void* l) { return ((L*)l)->removeBack().item; }
 
 // ---------------------------------------------------------------- ghost snapshot of the neighbourhood
 L* g_L; Item* g_P; Item* g_Q; Item* g_F; Item* g_F2; Item* g_I; Item* g_N; Item* g_F0;
@@ -137,6 +139,46 @@ void h_remove()
   NV_POST("List::remove: neighbours relinked, one destruction, successor returned", list_remove_post(r));
   if(hasPrev && !nextIsEnd) { NV_REACH("remove.middle"); }
   if(!hasPrev && nextIsEnd) { NV_REACH("remove.only"); }
+}
+
+// -------------------------------------------------------------- removeFront() / removeBack()
+// same relinking contract, reached through the members that pass the list's OWN iterators
+void h_removeFront()
+{
+  NV_INPUT(bool, nextIsEnd); NV_INPUT(bool, hasFree); NV_INPUT(usize, size0);
+  NV_ASSUME(size0 >= 1 && size0 <= NV_MAXSZ);
+  L* l = raw_list();
+  Item* I = raw_item();
+  Item* N = nextIsEnd ? &l->endItem : raw_item();
+  Item* F0 = hasFree ? raw_item() : (Item*)0;
+  I->prev = 0; I->next = N; N->prev = I; l->_begin.item = I;
+  l->freeItem = F0; l->_size = size0; l->blocks = 0;
+  g_L = l; g_I = I; g_N = N; g_Q = 0; g_F0 = F0; g_size0 = size0; g_hasPrev = false;
+  g_blocks0 = l->blocks; g_begin0 = l->_begin.item; gv_Q = 0; gv_N = N;
+  void* r = w_List_removeFront(l);
+  NV_POST("List::removeFront: first element unlinked, its successor returned", list_remove_post(r));
+  if(!nextIsEnd) { NV_REACH("removeFront.more"); }
+  if(nextIsEnd) { NV_REACH("removeFront.only"); }
+}
+void h_removeBack()
+{
+  NV_INPUT(bool, hasPrev); NV_INPUT(bool, hasFree); NV_INPUT(usize, size0);
+  NV_ASSUME(size0 >= 1 && size0 <= NV_MAXSZ);
+  L* l = raw_list();
+  Item* I = raw_item();
+  Item* N = &l->endItem;
+  Item* Q = hasPrev ? raw_item() : (Item*)0;
+  Item* F0 = hasFree ? raw_item() : (Item*)0;
+  Item* other = raw_item();
+  I->prev = Q; I->next = N; N->prev = I;
+  if(hasPrev) { Q->next = I; l->_begin.item = other; } else l->_begin.item = I;
+  l->freeItem = F0; l->_size = size0; l->blocks = 0;
+  g_L = l; g_I = I; g_N = N; g_Q = Q; g_F0 = F0; g_size0 = size0; g_hasPrev = hasPrev;
+  g_blocks0 = l->blocks; g_begin0 = l->_begin.item; gv_Q = Q; gv_N = N;
+  void* r = w_List_removeBack(l);
+  NV_POST("List::removeBack: last element unlinked, end() returned", list_remove_post(r));
+  if(hasPrev) { NV_REACH("removeBack.more"); }
+  if(!hasPrev) { NV_REACH("removeBack.only"); }
 }
 
 // -------------------------------------------------------------- swap(other)
